@@ -706,7 +706,11 @@ func evalLine(c *ctx, l *Line, effT func(*Type) bool, effF func(*Func) bool) (ou
 		case UTypeRef:
 			t := u.T
 			// TONL01
-			if effT(t) && t.TestOnly && !f.IsTest() && !inTestOnlyBody {
+			if effT(t) && t.TestOnly && !f.IsTest() && !inTestOnlyBody && u.Sub == SubRecv && !free(TONL) {
+				// the receiver of an ordinary method of a @testonly type (a mock implementing a production interface, as in
+				// the book's examples) is not one of the uses the statement lists: never reported
+				out = append(out, cand{line: l, cat: TONL, never: true, feature: feat, class: "TONL/type-recv/never-a-use"})
+			} else if effT(t) && t.TestOnly && !f.IsTest() && !inTestOnlyBody {
 				cls := "TONL/type-" + u.Sub
 				fr := free(TONL) || u.Sub == SubRecv || u.Sub == SubOther
 				if c.top != nil && c.top.Fn != nil && c.top.Fn.TestOnly && effF(c.top.Fn) {
